@@ -11,7 +11,135 @@ sys.path.insert(0, os.path.dirname(os.path.dirname(os.path.abspath(__file__))))
 import buildlib  # noqa: E402
 
 
+FUZZ_RUNS = {"thorough": 5000000}
+FUZZ_FLAGS = "-O1 -g -fsanitize=%s,address,undefined -fno-sanitize=object-size -fno-sanitize-recover=all"
+
+
+def build_fuzzer():
+    """clang++ build of /repo/src/*.cpp (fuzzer-no-link + ASan + UBSan, hooks off) and of harness/c10_fuzz.cpp (libFuzzer); content-hashed like the other builds."""
+    import glob
+    import hashlib
+    from concurrent.futures import ThreadPoolExecutor
+    out = os.path.join(buildlib.BUILD, "fuzz")
+    os.makedirs(out, exist_ok=True)
+    gen = os.path.join(buildlib.BUILD, "gen")
+    srcs = sorted(glob.glob(os.path.join(buildlib.REPO, "src", "*.cpp")))
+    hdrs = sorted(glob.glob(os.path.join(buildlib.REPO, "include", "libphysica", "*.hpp")))
+    harness = os.path.join(buildlib.VERIF, "harness", "c10_fuzz.cpp")
+    h = hashlib.sha256()
+    for f in srcs + hdrs + [harness]:
+        h.update(open(f, "rb").read())
+    h.update(FUZZ_FLAGS.encode())
+    exe, stamp = os.path.join(out, "c10_fuzz"), os.path.join(out, "c10_fuzz.sha")
+    if os.path.exists(exe) and os.path.exists(stamp) and open(stamp).read() == h.hexdigest():
+        return exe, None
+    buildlib.ensure_lib("rel")   # makes sure build/gen/version.hpp exists
+    def cc(src):
+        obj = os.path.join(out, os.path.basename(src)[:-4] + ".o")
+        r = subprocess.run("clang++ -std=c++14 %s -I%s/include -I%s -c %s -o %s" % (FUZZ_FLAGS % "fuzzer-no-link", buildlib.REPO, gen, src, obj),
+                           shell=True, stdout=subprocess.PIPE, stderr=subprocess.STDOUT)
+        return r.returncode, r.stdout.decode("utf-8", "replace")[-600:], obj
+    with ThreadPoolExecutor(max_workers=8) as ex:
+        res = list(ex.map(cc, srcs))
+    for rc, log, obj in res:
+        if rc != 0:
+            return None, "clang++ failed: " + log
+    r = subprocess.run("clang++ -std=gnu++17 %s -I%s/include -I%s %s %s -lconfig++ -ldl -o %s" % (
+        FUZZ_FLAGS % "fuzzer", buildlib.REPO, gen, harness, " ".join(o for _, _, o in res), exe), shell=True, stdout=subprocess.PIPE, stderr=subprocess.STDOUT)
+    if r.returncode != 0:
+        return None, "clang++ link failed: " + r.stdout.decode("utf-8", "replace")[-600:]
+    open(stamp, "w").write(h.hexdigest())
+    return exe, None
+
+
+def fuzz_report(text):
+    """first sanitizer / libFuzzer diagnosis line and the topmost library frames of a crash report"""
+    import re
+    kind = "crash"
+    m = re.search(r"(runtime error: [^\n]*|ERROR: AddressSanitizer: [a-z\-]+|ERROR: libFuzzer: [a-z \-]+|VERIF-FUZZ: [^\n]*)", text)
+    if m:
+        kind = m.group(1)
+    frames = re.findall(r"#\d+ 0x[0-9a-f]+ in (libphysica::[A-Za-z_0-9:~\[\]<>= ]+?)[\(<]", text)
+    return kind, frames[:4]
+
+
+def run_fuzzer_once(exe, args, workdir, timeout):
+    env = dict(os.environ, ASAN_OPTIONS="detect_leaks=0:abort_on_error=1", UBSAN_OPTIONS="print_stacktrace=1")
+    try:
+        r = subprocess.run([exe] + args, cwd=workdir, env=env, stdout=subprocess.DEVNULL, stderr=subprocess.PIPE, timeout=timeout)
+    except subprocess.TimeoutExpired:
+        return None, ""
+    return r.returncode, r.stderr.decode("utf-8", "replace")
+
+
+def fuzz_step(tier, seed):
+    """Thorough tier only: coverage-guided API-sequence fuzzing (harness/c10_fuzz.cpp) under clang ASan+UBSan, a fixed number of inputs from an empty corpus."""
+    import re
+    import tempfile
+    if tier not in FUZZ_RUNS:
+        return []
+    if shutil.which("clang++") is None:
+        return [{"t": "fatal", "reason": "clang++ not found"}]
+    exe, err = build_fuzzer()
+    if exe is None:
+        return [{"t": "fatal", "reason": err}]
+    work = tempfile.mkdtemp(prefix="verif-c10-fuzz-")
+    try:
+        os.makedirs(os.path.join(work, "corpus"))
+        os.makedirs(os.path.join(work, "art"))
+        rc, text = run_fuzzer_once(exe, ["-runs=%d" % int(os.environ.get("VERIF_FUZZ_RUNS", FUZZ_RUNS[tier])), "-seed=%d" % (int(seed) % 2000000000 + 1), "-max_len=128", "-close_fd_mask=1",
+                                         "-artifact_prefix=%s/art/" % work, "-print_final_stats=1", "corpus"], work, 3 * 3600)
+        if rc is None:
+            return [{"t": "inconclusive", "reason": "fuzzing run timed out"}]
+        recs = []
+        m = re.search(r"VERIF-FUZZ-STATS inputs=(\d+) calls=(\d+) exits=(\d+)", text)
+        arts = sorted(os.listdir(os.path.join(work, "art")))
+        if arts:
+            data = open(os.path.join(work, "art", arts[0]), "rb").read()
+            kind, frames = fuzz_report(text)
+            site = frames[0] if frames else "harness"
+            recs.append({"t": "viol", "key": "fuzz:%s:%s" % (kind.split(":")[-1].strip().replace(" ", "-")[:60], site), "clause": "fuzz:api-sequences-never-corrupt-memory",
+                         "gen": "fuzz", "index": 0, "flavour": "fuzz", "seed": seed, "tier": tier, "params": {"input_hex": data.hex(), "bytes": len(data)},
+                         "observation": {"diagnosis": kind, "library_frames": frames, "report_head": text[max(text.find("ERROR"), 0):][:1500]}})
+            done = re.findall(r"#(\d+)\s", text)
+            n = int(done[-1]) if done else 1
+            recs.append({"t": "clause", "id": "fuzz:api-sequences-never-corrupt-memory", "n": n, "nontrivial": n, "max_ratio": 1e300, "argmax": "fuzz"})
+        elif m and rc == 0:
+            n, calls, exits = int(m.group(1)), int(m.group(2)), int(m.group(3))
+            recs.append({"t": "clause", "id": "fuzz:api-sequences-never-corrupt-memory", "n": n, "nontrivial": n, "max_ratio": 0.0, "argmax": ""})
+            recs.append({"t": "clause", "id": "fuzz:library-calls-made", "n": calls, "nontrivial": calls, "max_ratio": 0.0, "argmax": ""})
+            recs.append({"t": "clause", "id": "fuzz:inputs-ended-by-a-refused-request(exit-status-not-zero)", "n": exits, "nontrivial": exits, "max_ratio": 0.0, "argmax": ""})
+        else:
+            recs.append({"t": "fatal", "reason": "fuzzer ended with rc %s and no artifact: %s" % (rc, text[-400:])})
+        return recs
+    finally:
+        shutil.rmtree(work, ignore_errors=True)
+
+
+def replay_fuzz(R):
+    """re-executes a recorded fuzz input (bin/check C10 --replay <file> for a violation found by the fuzzing step)"""
+    import tempfile
+    exe, err = build_fuzzer()
+    if exe is None:
+        return [{"t": "fatal", "reason": err}]
+    work = tempfile.mkdtemp(prefix="verif-c10-fuzz-")
+    try:
+        inp = os.path.join(work, "input")
+        open(inp, "wb").write(bytes.fromhex(R["params"]["input_hex"]))
+        rc, text = run_fuzzer_once(exe, [inp], work, 600)
+        if rc not in (0, None):
+            kind, frames = fuzz_report(text)
+            return [{"t": "viol", "key": R["key"], "clause": R.get("clause"), "observation": {"diagnosis": kind, "library_frames": frames}}]
+        return []
+    finally:
+        shutil.rmtree(work, ignore_errors=True)
+
+
 def pre(tier, seed):
+    return fuzz_step(tier, seed) + memcheck_step(tier, seed)
+
+
+def memcheck_step(tier, seed):
     """Thorough tier only: the whole guard catalogue once more under valgrind memcheck (g++ -O0 build, hooks off), which sees use of uninitialised values
     that ASan cannot.  A memcheck error makes the child exit with status 97, which the process-outcome oracle reports like any other wrong outcome."""
     if tier != "thorough":
@@ -48,6 +176,7 @@ def pre(tier, seed):
 PROP = {
     "driver": "c10_guards",
     "pre": pre,
+    "replay_hooks": {"fuzz": replay_fuzz},
     "flavours": [("asan", 1.0), ("rel", 1.0)],
     "shards": {"quick": 16, "thorough": 16},
     "rule": "catalogue of guarded entry points (one isolated child per request, each request is one side of one guard: "
